@@ -15,9 +15,11 @@ run() { # name patch expect props...
   git -C "$w/wt" checkout -q -- . ; git -C "$w/wt" clean -fdq
   if ! git -C "$w/wt" apply --check "$patch" 2>/dev/null; then echo "SKIP   $name: patch does not apply"; return; fi
   git -C "$w/wt" apply "$patch"
-  caught=""
+  caught=""; ex="$extra"
+  # a seed that only a bounded harness can see (its meta.json says "bounded_only": true) is run with the harnesses
+  if grep -q '"bounded_only": *true' "$(dirname "$patch")/meta.json" 2>/dev/null; then ex="-noreplay -budget 5"; fi
   for p in "$@"; do
-    n=$(./bin/govc check -prop $p $extra -repo "$w/wt" -out "$w/out" 2>&1 | grep -c '^VIOLATION')
+    n=$(./bin/govc check -prop $p $ex -repo "$w/wt" -out "$w/out" 2>&1 | grep -c '^VIOLATION')
     [ "$n" -gt 0 ] && caught="$caught $p($n)"
   done
   if [ "$expect" = benign ]; then
